@@ -103,11 +103,23 @@ add("C09", "tds-sim", "exploration",
     "rejected attempt or a chatter-accepted step (flags are one Newton iteration old). SortedLimiter latches by design and is only judged on its "
     "first evaluation; Sampling only for membership of its output among sampled inputs.", "DESIGN.md section 4, C09")
 
+add("C12", "lifecycle-sim", "exploration",
+    "deterministic simulation: enumerated and seeded on/off patterns, seeded line-switching schedules in real TDS runs (ConnTap seam after every event), bus-off histories; union-find reference",
+    "All 2^L on/off patterns of three fixed topologies (Lines, a Jumper, parallel edges; three slack status combinations) are enumerated on one "
+    "System; seeded topologies of 2-12 buses with seeded patterns (incl. all-out, disconnected slack) are built through System.add; stock "
+    "dynamic cases get seeded Toggle schedules on lines and the partition recorded after every switching event is compared; seeded buses are "
+    "switched off by Bus.alter/set before or after a power flow and the whole-system status diff must be exactly the attached devices. The "
+    "reference is a union-find over in-service Line/Jumper edges with slack counting; isolated buses must be neutralised in the power flow.",
+    "Trusted: the simulator's own list of bus-attached groups (the documented behaviour of the pinned tree); Fortescue transformers are not "
+    "generated.", "DESIGN.md section 4, C12")
+
 ENGINES = [
     {"name": "tds-sim", "path": "dst/tdssim.py", "kind_free_text": "real TDS loop under StepTap/SolverTap/TimerTap/StoreTap/ConnTap "
      "seams with seeded plans (events, segments, restarts, solver/disk/clock faults, crash points)", "serves_properties": []},
     {"name": "solver-sim", "path": "dst/props/c16.py", "kind_free_text": "matrix-sequence histories on one Solver instance per back-end in "
      "sacrificial worker processes, dense numpy reference; cross-option twins and stale-factor faults on tds-sim", "serves_properties": []},
+    {"name": "lifecycle-sim", "path": "dst/props", "kind_free_text": "seeded API histories on one real System (add / setup / alter / set / "
+     "reset / power flow / init / export / reload / snapshot) with reference models checked after every operation", "serves_properties": []},
     {"name": "restart-sim", "path": "dst/props/c14.py", "kind_free_text": "tds-sim plus interruption machinery: resume, dill snapshots in streams/"
      "files, crash injection with restart from durable bytes only, torn snapshots, reference twin", "serves_properties": []},
 ]
